@@ -189,7 +189,13 @@ func gen(r *sim.Rng, tier string) *sim.Case {
 		p["plen"] = r.N(70000) // crosses io.Copy's 32 KiB buffer
 	}
 	p["slen"] = []int{0, 1, 8, 16, 32, 33, 100}[r.N(7)]
+	if r.Pct(60) {
+		p["slen"] = r.N(140) // every length around the digest/block sizes of the key derivation
+	}
 	p["alen"] = []int{0, 0, 1, 12, 16, 40}[r.N(6)]
+	if r.Pct(40) {
+		p["alen"] = r.N(100)
+	}
 	p["variant"] = r.N(8) // bit0: plaintext as string, bit1: secret as string, bit2: aad as string
 	p["emode"] = r.Pick(6, 1, 1)
 	p["echunk"] = []int{0, 0, 1, 3, 7}[r.N(5)]
